@@ -14,6 +14,17 @@ from . import ext
 
 class CallMixin:
 
+
+    def _consume_generator_args(self, args, node):
+        """a generator handed to an external method is consumed there: it is summarised as a generic iterable when its body
+        is `for x in src: yield e`, otherwise run to its end here (its effects and errors are those of the call)"""
+        out = []
+        for a in args:
+            g = self.resolve(a)
+            if isinstance(g, GenCallV) and not g.started:
+                a = self.generator_as_iter(g, node) or self.drain_generator(g, node)
+            out.append(a)
+        return out
     def _next_loop(self, node):
         """next((elt for x in it if c), default)  ==  for x in it: if c: result = elt; break   else default / StopIteration"""
         tree = getattr(node, '_desugared', None)
@@ -332,6 +343,7 @@ class CallMixin:
                 r = g(self, recv, args, kwargs, node)
                 self.event('method', node, recv=recv, name=name, args=args, kwargs=kwargs, result=r)
                 return r
+            args = self._consume_generator_args(args, node)
             r = SymV(self.fresh(name), 'ext' if recv.kind == 'ext' else 'any',
                      origin=('method', recv, name, args, kwargs), tags=value_tags(recv))
             self.event('method', node, recv=recv, name=name, args=args, kwargs=kwargs, result=r)
@@ -342,6 +354,7 @@ class CallMixin:
             return UnkV(f'method {name} of unknown')
         if isinstance(recv, ObjV) and [b for b in recv.cls.external_bases() if b not in ('object', 'builtins.object')]:
             # inherited from an external base class: an opaque call on this object
+            args = self._consume_generator_args(args, node)
             r = SymV(self.fresh(name), 'ext', origin=('method', recv, name, args, kwargs))
             self.event('method', node, recv=recv, name=name, args=args, kwargs=kwargs, result=r)
             return r
@@ -1114,8 +1127,49 @@ def b_repr(it, args, kwargs, node):
     return seqops.opaque_fresh(it, 'str', 'repr', deps=tuple(args))
 
 
+def make_set(it, lv):
+    """the set of the elements of list value lv: equal elements collapse and the iteration order is not the insertion
+    order.  Exact for distinct constants; otherwise a collection of 1..n generic elements."""
+    if lv.items is not None:
+        keys = [it.py_key(x) for x in lv.items]
+        if all(k is not None for k in keys):
+            seen, ded = set(), []
+            for k, x in zip(keys, lv.items):
+                try:
+                    new = k not in seen
+                    seen.add(k)
+                except TypeError:
+                    new = True
+                if new:
+                    ded.append(x)
+            r = ListV(items=ded, desc='set')
+            r.is_set = True
+            return r
+        n = len(lv.items)
+        if n <= 1:
+            r = ListV(items=list(lv.items), desc='set')
+            r.is_set = True
+            return r
+        k = it.fresh('n')
+        it.store.declare(k, 1, n, info='size of a set of values that may be equal')
+        r = ListV(items=None, elem=it.join_many(lv.items), length=Lin.sym(k), desc='set')
+        r.is_set = True
+        r.set_of = list(lv.items)
+        it.event('make-set', None, result=r, of=list(lv.items))
+        return r
+    k = it.fresh('n')
+    hi = it.store.hi(lv.len) if lv.len is not None else None
+    it.store.declare(k, 0, hi, info='size of a set')
+    if lv.len is not None:
+        it.store.assume_ge0(lv.len - Lin.sym(k))
+    r = ListV(items=None, elem=lv.elem, length=Lin.sym(k), desc='set')
+    r.is_set = True
+    r.src = getattr(lv, 'src', None)
+    return r
+
+
 def b_set(it, args, kwargs, node):
-    return b_list(it, args, kwargs, node)
+    return make_set(it, b_list(it, args, kwargs, node))
 
 
 def b_reversed(it, args, kwargs, node):
